@@ -162,7 +162,8 @@ var operators = []map[string]tokType{
 
 func (sys System) typeOf(r rune) uint8 {
 	// Special cases.
-	if r == '_' && sys == Maven {
+	if r == '_' && (sys == Maven || sys == PyPI) {
+		// PEP 440 accepts _ as a separator (1.0_post1), as Parse does.
 		return tVS
 		// TODO: is + also tVS in Maven?
 	}
